@@ -20,7 +20,7 @@ level_text = {
  "C22": "same runs as C21 (scenario chainsync): per roll-forward identity of block type/bytes (NtC) and header era/hash (NtN) for real blocks of eight eras, and for the same blocks with the header's protocol major version patched to 1..12, over the simulated wire",
  "C23": "seeded search over batch shapes (matching, other block, other block of the same slot, right slot with another hash, none, empty, several) and served ranges with real blocks; GetBlock must return the requested block or fail, never hang",
  "C24": "seeded search over request rounds and reply counts; the acknowledgement window is recomputed from the wire by an independent model; out-of-range counts from API and from a raw peer",
- "C25": "seeded search over concurrent callers of one shared client against tagging servers; every return value must carry its own request's tag (uniqueness and real-time order)",
+ "C25": "seeded search over concurrent callers of one shared client against tagging servers, including acquisitions and re-acquisitions the server refuses; every return value must carry its own request's tag (uniqueness and real-time order) and conforming use must not fail",
  "C42": "seeded search over worker counts, buffer sizes, submitter interleavings, slow apply, decode failures and Stop at arbitrary instants; apply-once/in-order, results exactly once, clean stop",
  "C43": "same runs: a WaitForDrain that returned nil is compared with the apply log: every block submitted before the wait must have finished, none applied afterwards; plus the chain-sync client's drain before a roll-backward callback (scenario chainsync-pipeline)",
  "C44": "same runs with Submit contexts that expire under backpressure: later successful submissions must still be applied",
@@ -47,6 +47,6 @@ for pid in sorted(PROPS):
 m["checks"] = checks
 m["engines"][0]["serves_properties"] = sorted(PROPS)
 m["hooks"]["baseline_off_cmd"] = "cd /verif && . ./env.sh && cd /repo && \"$VERIF_GO\" test -vet=off -count=1 -timeout 25m ./..."
-m["notes"] = "20 properties claimed (C09-C19, C21-C25, C42-C44, C46), 26 not applicable (pure functions). No hooks in /repo: checks instrument a scratch copy at check time. 18 fix: commits in /repo repair the genuine defects the checks found (DESIGN.md 16); known_findings.json holds only fixed: entries, so no check prints KNOWN-FINDING on the current tree."
+m["notes"] = "20 properties claimed (C09-C19, C21-C25, C42-C44, C46), 26 not applicable (pure functions). No hooks in /repo: checks instrument a scratch copy at check time. 20 fix: commits in /repo repair the genuine defects the checks found (DESIGN.md 16); known_findings.json holds only fixed: entries, so no check prints KNOWN-FINDING on the current tree."
 json.dump(m, open('/verif/MANIFEST.json', 'w'), indent=1)
 print(len(checks), "checks")
